@@ -190,18 +190,51 @@ def _master_variant_of_arg(body, op):
     return None
 
 
+def _stack_adders(b):
+    """calls in body b that add elements to self.tag_stack"""
+    out = []
+    for cb, t, c in b.calls():
+        if c is None or not t["args"]:
+            continue
+        nm = strip_generics(c["path"])
+        if nm in ("std::vec::Vec::push", "std::vec::Vec::insert", "std::iter::Extend::extend", "std::vec::Vec::extend_from_slice", "std::vec::Vec::append"):
+            a0 = t["args"][0]
+            if a0.get("k") in ("copy", "move") and "field:tag_stack" in local_sources(b, a0["place"]["local"]):
+                out.append((cb, t))
+    return out
+
+
 def r_stack_end(ctx):
-    rep = RuleReport("R-STACK-END", "every ProcessingTag stored on the open-master stack carries the Master::End form of its tag (entries are emitted "
-                     "verbatim when the master closes)")
+    rep = RuleReport("R-STACK-END", "every ProcessingTag that reaches the open-master stack (pushed, or collected into it by the function that seeds the "
+                     "implied ancestors) carries the Master::End form of its tag (entries are emitted verbatim when the master closes), and "
+                     "every function that adds to the stack builds its entries that way")
     prog = ctx.prog
-    n = 0
-    for fn in ("read_next", "peek_valid_tag_header"):
-        for b in [find_one(prog, "TagIterator::" + fn)] + prog.closures_of(ITER + "::" + fn):
+    fns = [b for b in iter_bodies(prog) if b.kind != "closure"]
+    producers = 0
+    for f in fns:
+        bodies = [f] + prog.closures_of(f.path)
+        assigns = any(st["k"] == "assign" and st["place"]["proj"] and st["place"]["proj"][-1].get("name") == "tag_stack" for bd in bodies for _, _, st in bd.statements())
+        adders = _stack_adders(f)
+        if not assigns and not adders:
+            continue
+        here = 0
+        for b in bodies:
             for bb, i, st in b.statements():
                 rv = st["rv"] if st["k"] == "assign" else None
                 if rv is None or rv.get("agg") != "adt" or not strip_generics(rv["path"]).endswith("ProcessingTag"):
                     continue
-                n += 1
+                # is this aggregate a stack entry?  (a) built in a closure of a function that assigns the stack (collect), or
+                # (b) its destination is moved into one of the adding calls of this function
+                is_entry = b.kind == "closure" and assigns
+                if not is_entry and b is f:
+                    d = st["place"]["local"]
+                    for cb, t in adders:
+                        for a in t["args"][1:]:
+                            if a.get("k") in ("copy", "move") and (a["place"]["local"] == d or "local:%d" % d in _moved_from(b, a["place"]["local"])):
+                                is_entry = True
+                if not is_entry:
+                    continue
+                here += 1
                 tg = rv["ops"][rv["fields"].index("tag")]
                 src = local_sources(b, tg["place"]["local"]) if tg.get("k") in ("copy", "move") else set()
                 calls = [(cb, t) for cb, t, c in b.calls() if c is not None and strip_generics(c["path"]).endswith("EbmlSpecification::get_master_tag")]
@@ -209,29 +242,26 @@ def r_stack_end(ctx):
                 feeding = [(cb, t) for cb, t in calls if cb in dom.get(bb, ())]
                 variants = {_master_variant_of_arg(b, t["args"][1]) for cb, t in feeding}
                 rep.instance("%s: stack entry tag from get_master_tag(.., %s)" % (b.key, sorted(map(str, variants))))
-                rep.oblige(any("get_master_tag" in x for x in src) and variants == {"End"}, "STACK-END|%s" % fn, b.span,
+                rep.oblige(any("get_master_tag" in x for x in src) and variants == {"End"}, "STACK-END|%s" % f.name, b.span,
                            "%s stores a stack entry whose tag is built with Master::%s (must be End)" % (b.key, sorted(map(str, variants))))
-    if n < 2:
-        raise AnchorLost("R-STACK-END: expected 2 producers of stack entries, found %d" % n)
-    # the stack is written only there
-    writers = set()
-    for b in iter_bodies(prog):
-        root = prog.function_root(b)
-        for cb, t, c in b.calls():
-            if c is None or not t["args"]:
-                continue
-            nm = strip_generics(c["path"])
-            if nm in ("std::vec::Vec::push", "std::vec::Vec::insert", "std::iter::Extend::extend", "std::vec::Vec::extend_from_slice"):
-                a0 = t["args"][0]
-                if a0.get("k") in ("copy", "move") and "field:tag_stack" in local_sources(b, a0["place"]["local"]):
-                    writers.add(root.name if root else b.name)
-        for bb, i, st in b.statements():
-            if st["k"] == "assign" and st["place"]["proj"] and st["place"]["proj"][-1].get("name") == "tag_stack":
-                writers.add(root.name if root else b.name)
-    rep.instance("functions adding to tag_stack: %s" % sorted(writers))
-    rep.oblige(writers <= {"read_next", "peek_valid_tag_header", "with_capacity"}, "STACK-END|writers", "src/tag_iterator.rs",
-               "tag_stack is filled outside read_next / peek_valid_tag_header: %s" % sorted(writers))
+        producers += here
+        rep.oblige(here >= 1, "STACK-END|writers|%s" % f.name, f.span, "%s adds to tag_stack entries that are not built there from get_master_tag(.., Master::End)" % f.key)
+    if producers < 2:
+        raise AnchorLost("R-STACK-END: expected at least 2 producers of stack entries (push on a Start, seeding of implied ancestors), found %d" % producers)
     return rep
+
+
+def _moved_from(body, local, depth=4):
+    """locals whose value is moved/copied (plain `use`) into `local`"""
+    out = set()
+    cur = local
+    for _ in range(depth):
+        d = _def_of(body, cur)
+        if d is None or d["rv"]["k"] != "use" or d["rv"]["op"].get("k") not in ("copy", "move") or d["rv"]["op"]["place"]["proj"]:
+            break
+        cur = d["rv"]["op"]["place"]["local"]
+        out.add("local:%d" % cur)
+    return out
 
 
 SHRINKERS = ("pop", "drain", "remove", "truncate", "clear", "split_off", "swap_remove", "retain", "pop_if", "dedup", "drain_filter", "extract_if")
